@@ -12,6 +12,34 @@ Proof. vm_compute. reflexivity. Qed.
 Lemma gen_splice_shape : splice_shape_recognised = true.
 Proof. reflexivity. Qed.
 
+(** which way the schema cache treats a key it already has is read from the source; when it refreshes
+    (the repaired catalog.add_table) re-registering cannot leave a stale column list -- this widens the set
+    of states in which the premises of [session_sql_sound] hold; when it keeps the first list the
+    statement is vacuous and [C13_refuted_stale_cache] applies instead *)
+Lemma gen_reg_refreshes_cache : c_add_if_absent gen_cfg = false ->
+  forall tables st name h d, heap_get (s_heap st) h = Some d ->
+    snd (mstep gen_cfg tables st (SReg name h)) = ONone ->
+    assoc (norm_key (c_reg_norm gen_cfg) name) (s_cache (fst (mstep gen_cfg tables st (SReg name h))))
+    = Some (static_cols (d_leaf (stored gen_cfg st d))).
+Proof. intros Ha tables st name h d. exact (reg_refreshes_cache gen_cfg tables st name h d Ha). Qed.
+
+(** with the repaired splice (references of the user's query only, own CTEs left alone) the hijack
+    witness and a view that shadows the table it reads are handled as the value semantics demands *)
+Lemma gen_repaired_splice_examples : c_skip_own_ctes gen_cfg = true -> c_user_refs_only gen_cfg = true ->
+  let unit := FVal (mkFrame [] [[]]) in
+  let f0 := mkFrame ["a"; "b"] [[VInt 1; VInt 2]; [VInt 3; VInt 4]] in
+  let bt := mkFrame ["a"; "q"] [[VInt 1; VInt 100]; [VInt 5; VInt 6]] in
+  agree gen_cfg [("bt", bt)] [f0]
+    [SReg "v" 0;
+     SSql (mkQuery [("v", QSel unit [] (Some [(ELit (VInt 9), "z")]) false)]
+                   (QSel (FName "v") [] (Some [(ECol "z", "z")]) false));
+     STable "bt"; SWhere 2 (EBin Gt (ECol "q") (ELit (VInt 6))); SReg "bt" 3;
+     SSql (mkQuery [] (QSel (FName "bt") [] (Some [(ECol "a", "a")]) false))] = true.
+Proof.
+  intros H1 H2. vm_compute in H1. vm_compute in H2.
+  first [ discriminate H1 | discriminate H2 | (vm_compute; reflexivity) ].
+Qed.
+
 (** * the property at full strength: on every history (register / re-register / table / sql / where /
     join back / observe, any length, any names and case variants, any query of the language) the
     implementation's model and the value semantics observe the same at every step *)
@@ -22,12 +50,12 @@ Definition C13_full : Prop :=
     [no_capture] / [sql_side_ok] / [fresh_for] / [nodupb] visible, for the configuration read from the
     source.  Unbounded: every query tree, registry, environment, history. *)
 Theorem C13_partial :
-  (forall q views base0 r, no_capture q views = true ->
-     (Run (splice q views) base0 r <-> exists g, Run q (view_env g views base0) r))
+  (forall so uo q views base0 r, no_capture so uo q views = true ->
+     (Run (splice so uo q views) base0 r <-> exists g, Run q (view_env g views base0) r))
   /\ (forall tables st q q1 d,
         qualify (s_cache st) (lower_query q) = Some q1 ->
         snd (mstep gen_cfg tables st (SSql q)) = ODf d ->
-        sql_side_ok st q1 = true ->
+        sql_side_ok gen_cfg st q1 = true ->
         forall r, (exists f, eval_df f d (base tables) = Some r)
                   <-> exists g, Run q1 (view_env g (s_views st) (base tables)) r)
   /\ (forall tables st name name' h d,
@@ -79,7 +107,7 @@ Definition ex_history :=
 Example C13_history_in_domain :
   let st := mrun gen_cfg ex_tables (init_state [ex_f0; ex_f1]) [SReg "v" 0; SReg "W" 1; STable "V"] in
   match qualify (s_cache st) (lower_query ex_join) with
-  | Some q1 => sql_side_ok st q1
+  | Some q1 => sql_side_ok gen_cfg st q1
   | None => false
   end = true
   /\ agree gen_cfg ex_tables [ex_f0; ex_f1] ex_history = true.
@@ -90,8 +118,8 @@ Proof. vm_compute. split; reflexivity. Qed.
     [cfg_ok] (and has the flag the defect depends on), hence for the one read from the source. *)
 Ltac all_cfgs :=
   let c := fresh "c" in let Hok := fresh "Hok" in
-  intros c Hok; destruct c as [a f cp vf rn tn af]; unfold cfg_ok in Hok; simpl in Hok;
-  destruct a, f, cp, vf, rn, tn, af; simpl in *; try discriminate.
+  intros c Hok; destruct c as [a f cp vf rn tn af so uo]; unfold cfg_ok in Hok; simpl in Hok;
+  destruct a, f, cp, vf, rn, tn, af, so, uo; simpl in *; try discriminate.
 
 Definition star_of n := mkQuery [] (QSel (FName n) [] None false).
 
@@ -100,13 +128,14 @@ Theorem C13_refuted_stale_cache : forall c, cfg_ok c = true -> c_add_if_absent c
   agree c ex_tables [ex_f0; ex_f1] [SReg "v" 0; SReg "V" 1; SSql (star_of "v")] = false.
 Proof. all_cfgs; intros _; vm_compute; reflexivity. Qed.
 
-(** a CTE of the user's query named like a registered view is retargeted to the view *)
-Theorem C13_refuted_cte_hijack : forall c, cfg_ok c = true ->
+(** a CTE of the user's query named like a registered view is retargeted to the view -- as long as
+    session.sql does not leave the references to the query's own CTEs alone (repaired: d7a60e1) *)
+Theorem C13_refuted_cte_hijack : forall c, cfg_ok c = true -> c_skip_own_ctes c = false ->
   agree c ex_tables [ex_f0; ex_f1]
     [SReg "v" 0;
      SSql (mkQuery [("v", QSel ex_unit [] (Some [(ELit (VInt 9), "z")]) false)]
                    (QSel (FName "v") [] (Some [(ECol "z", "z")]) false))] = false.
-Proof. all_cfgs; vm_compute; reflexivity. Qed.
+Proof. all_cfgs; intros _; vm_compute; reflexivity. Qed.
 
 (** a view built by session.sql keeps the user's CTE name in its chain; a later query with a CTE of
     that name replaces the view's inner CTE: wrong rows, no error *)
@@ -140,7 +169,7 @@ Proof. all_cfgs; vm_compute; reflexivity. Qed.
 
 Theorem C13_full_is_false : ~ C13_full.
 Proof.
-  intro H. pose proof (C13_refuted_cte_hijack gen_cfg gen_cfg_ok) as R.
+  intro H. pose proof (C13_refuted_chain_capture gen_cfg gen_cfg_ok) as R.
   rewrite H in R. discriminate.
 Qed.
 Print Assumptions C13_refuted_stale_cache.
